@@ -1,7 +1,6 @@
 package values
 
 import (
-	"reflect"
 	"sort"
 )
 
@@ -57,18 +56,9 @@ func (s sortableByProperty) Swap(i, j int) {
 
 // Less is part of sort.Interface.
 func (s sortableByProperty) Less(i, j int) bool {
-	// index returns the value at s.key, if in is a map that contains this key
+	// index returns the value at s.key, if in is a map (of any representation) that contains this key
 	index := func(i int) any {
-		value := ToLiquid(s.data[i])
-		rt := reflect.ValueOf(value)
-		if rt.Kind() == reflect.Map && rt.Type().Key().Kind() == reflect.String {
-			// (the key type may be a named string type)
-			elem := rt.MapIndex(reflect.ValueOf(s.key).Convert(rt.Type().Key()))
-			if elem.IsValid() {
-				return elem.Interface()
-			}
-		}
-		return nil
+		return ValueOf(s.data[i]).IndexValue(ValueOf(s.key)).Interface()
 	}
 	a, b := index(i), index(j)
 	switch {
